@@ -3,7 +3,7 @@ import re
 
 from ..core import AnalysisError, anchor
 from .. import cfront, layout
-from ..cfront import strip, walk, callee_name, call_args, qtype, toks, render
+from ..cfront import strip, walk, callee_name, call_args, qtype, toks, render, is_assign, line_of
 
 BY_VALUE = ('REB_VEC3D', 'REB_PARTICLE', 'REB_PARTICLE4', 'REB_DP7')
 SKIP = ('REB_OTHER', 'REB_FIELD_END', 'REB_FIELD_NOT_FOUND')
@@ -338,3 +338,78 @@ def rule_tree_predicate(ctx, rule):
                        % (sorted(atoms), counts[ref], sorted(ref), sorted(ref - atoms)))
     ctx.covered(rule, 'sites deciding whether the particle tree is in use test the same set of gravity/collision modules', len(sites), floor=4,
                 samples=['src/%s:%s %s %s' % (c, l, f, sorted(a)) for c, f, l, a in sites[:3]])
+
+
+def _const_size(e, recs):
+    """Value of a size expression made of sizeof(type), integer literals, * and +."""
+    e = strip(e, casts=True)
+    k = e.get('kind')
+    if k == 'IntegerLiteral':
+        return int(e['value'])
+    if k == 'UnaryExprOrTypeTraitExpr' and e.get('name') == 'sizeof':
+        t = (e.get('argType') or {}).get('qualType')
+        if t is None and e.get('inner'):
+            t = qtype(strip(e['inner'][0]))
+        v = layout.type_size(t, recs) if t else None
+        if v is None:
+            raise AnalysisError('cannot size %s' % t)
+        return v
+    if k == 'BinaryOperator' and e['opcode'] in ('*', '+'):
+        a, b = _const_size(e['inner'][0], recs), _const_size(e['inner'][1], recs)
+        return a * b if e['opcode'] == '*' else a + b
+    raise AnalysisError('size expression %s is not a constant the rule can fold' % render(e))
+
+
+def rule_size_switch(ctx, rule='R05.8'):
+    """The writer takes the byte count of a by-value row from a switch over the row's dtype; the reader trusts the
+    recorded size. The count of each case must be the size of the members the rows of that dtype designate (otherwise
+    the value is truncated or neighbouring members are written into the stream and read back over the member)."""
+    recs, rows, dt, inv, sim = rows_and_leaves()
+    tu = cfront.load_tu('output.c')
+    fn = tu.func('reb_simulation_save_to_stream')
+    by_dtype = {}
+    for r in rows:
+        d = inv.get(r.dtype)
+        if d in SKIP or d is None:
+            continue
+        pm = row_member(sim, inv, r)
+        if pm is None:
+            continue
+        by_dtype.setdefault(d, []).append((r, pm[0], pm[1]))
+    n = 0
+    samples = []
+    found = 0
+    for sw in walk(cfront.body(fn)):
+        if sw.get('kind') != 'SwitchStmt':
+            continue
+        cases = []
+        cur = None
+        body_ = sw['inner'][-1]
+        for st in body_.get('inner', []):
+            node = st
+            while node.get('kind') in ('CaseStmt', 'DefaultStmt'):
+                if node.get('kind') == 'CaseStmt':
+                    lab = [x['referencedDecl']['name'] for x in walk(node['inner'][0]) if x.get('kind') == 'DeclRefExpr' and x['referencedDecl'].get('kind') == 'EnumConstantDecl']
+                    cur = lab[0] if lab else None
+                node = node['inner'][-1]
+            s = strip(node)
+            if is_assign(s) and render(s['inner'][0]) == 'field.size' and cur:
+                cases.append((cur, s))
+        if not cases or not all(c.startswith('REB_') and c in dt for c, _ in cases):
+            continue
+        found += 1
+        for lab, s in cases:
+            size = _const_size(s['inner'][1], recs)
+            members = by_dtype.get(lab, [])
+            n += 1
+            where = 'src/output.c:%s reb_simulation_save_to_stream' % line_of(s)
+            bad = [(r, p, m) for r, p, m in members if m.size != size]
+            if bad:
+                r, p, m = bad[0]
+                ctx.report(rule, 'size:' + lab, where, 'case %s writes %s = %d bytes, but the %d rows of that dtype designate members of %d bytes (e.g. row %d "%s": %s %s) - %s'
+                           % (lab, render(s['inner'][1]), size, len(members), m.size, r.type, r.name, m.ctype, p,
+                              'the value is truncated in the stream' if size < m.size else 'bytes of the following members are written and read back'))
+            elif len(samples) < 5:
+                samples.append('%s case %s: %d bytes = size of all %d members of that dtype' % (where, lab, size, len(members)))
+    anchor(found >= 1, 'switch over the row dtype assigning field.size in reb_simulation_save_to_stream')
+    ctx.covered(rule, 'byte counts of the writer\'s dtype switch equal the size of the members designated by the rows of that dtype', n, floor=9, samples=samples)
